@@ -240,6 +240,36 @@ def ansInherit : List POp := [.cmd .inheritReply]
 def ansBashrcs (n : Nat) : List POp := (List.replicate n [POp.ask .bashrcItem, .drain]).flatten ++ [.cmd .endRequest]
 def ansSummary (n : Nat) : List POp := List.replicate n (.cmd .summaryLine) ++ [.cmd .endSummary]
 
+/-! ## the concrete forms of a death notice line
+
+`readlines` looks at the first word of every line it reads: `dying` (from `die`: `dying ${PORTAGE_LOGFILE}`, i.e. bare
+when no log file is set, followed by the log path when build logging is on), `SIGINT`, `SIGTERM`.  The abstraction
+`Msg.death` stands for all of them, with or without argument. -/
+
+/-- `line.strip().partition(" ")[0]` for ASCII blanks -/
+def firstWord (line : List Char) : List Char :=
+  (line.dropWhile fun c => c == ' ' || c == '\t').takeWhile fun c => !(c == ' ' || c == '\t' || c == '\n')
+
+def wDying : List Char := ['d', 'y', 'i', 'n', 'g']
+def wSigint : List Char := ['S', 'I', 'G', 'I', 'N', 'T']
+def wSigterm : List Char := ['S', 'I', 'G', 'T', 'E', 'R', 'M']
+
+def isNoticeLine (line : List Char) : Bool :=
+  firstWord line == wDying || firstWord line == wSigint || firstWord line == wSigterm
+
+/-- the notice lines the daemon writes: `dying`, `dying <logfile>`, `SIGINT`, `SIGTERM` (argument = anything) -/
+inductive NoticeForm
+  | dying (arg : Option (List Char))
+  | sigint
+  | sigterm
+  deriving Repr
+
+def NoticeForm.line : NoticeForm → List Char
+  | .dying none => wDying ++ [' ', '\n']       -- `__ebd_write_line "dying ${PORTAGE_LOGFILE}"` with an empty variable
+  | .dying (some a) => wDying ++ ' ' :: a ++ ['\n']
+  | .sigint => wSigint ++ ['\n']
+  | .sigterm => wSigterm ++ ['\n']
+
 /-! ## Python's view of a session (used to validate recorded traces) -/
 
 inductive Obs | wrote (x : Cmd) | read (m : Msg)
